@@ -130,4 +130,7 @@ def harnesses(tier):
                 hs.append(VecOp(m, k, 4))
         for m in ("sort", "rank", "unique"):
             hs.append(VecOp(m, "O", 3))
+        # a deeper bound for the argsort / scan code on the two cheapest element types
+        for k, m in (("i", "sort"), ("f", "sort"), ("i", "unique"), ("f", "unique"), ("i", "rank")):
+            hs.append(VecOp(m, k, 5))
     return hs
